@@ -48,6 +48,9 @@ def run(repo: Repo, rep: Report, tier: str) -> None:
                       "the three tag groupings are not the same function of the operations", forms[-1][1].loc())
     # the grouped dict is keyed by the canonical *spelling* (the key that names classes/modules), not by the normalised key
     mg = repo.func("emitters.mocks_emitter:MocksEmitter._group_operations_by_tag")
+    from sa.flatten import flatten as _fl132
+
+    mg = _fl132(mg)  # `canonical_tag_spelling(candidates)` = `max(candidates, key=score)` may be a shared (imported) helper
     ML = Locals(mg.node)
     returned = {x.id for r in own_nodes(mg.node) if isinstance(r, ast.Return) and r.value is not None for x in ast.walk(r.value) if isinstance(x, ast.Name)}
     stores = [n for n in own_nodes(mg.node) if isinstance(n, ast.Assign) and isinstance(n.targets[0], ast.Subscript) and isinstance(n.targets[0].value, ast.Name)
